@@ -106,29 +106,28 @@ type c27Junk struct {
 }
 
 type c27Config struct {
-	Kind           string     `json:"kind"`
-	LeafPad        int        `json:"leaf_pad"`
-	ChainExtra     int        `json:"chain_extra"`
-	ChainExtraPad  int        `json:"chain_extra_pad"`
-	DefaultCert    bool       `json:"default_cert,omitempty"` // the repository's test certificate
-	BigClientHello bool       `json:"big_client_hello,omitempty"`
-	ALPNBytes      int        `json:"alpn_bytes,omitempty"`
-	Retry          bool       `json:"retry,omitempty"`
-	ResetKey       bool       `json:"reset_key,omitempty"`
-	SrvHandshakeS  int        `json:"srv_handshake_timeout_s"`
-	Steps          []c27Step  `json:"steps"`
-	Tail           string     `json:"tail"`     // drop | deliver
-	TailPad        int        `json:"tail_pad"` // datagram padding added to every client datagram of the tail that has no short-header packet
-	S2C            string     `json:"s2c"`      // deliver | drop (the PRNG faults below apply to both directions)
-	Faults         vlpFaults  `json:"faults"`
-	FaultPhaseMs   int        `json:"fault_phase_ms"`
-	Junk           []c27Junk  `json:"junk,omitempty"`
-	RunS           int        `json:"run_s"`
-	NetSeed        uint64     `json:"net_seed"`
-	CertSeed       uint64     `json:"cert_seed"`
-	AltRouted      bool       `json:"alt_routed"` // whether the spoofed source address has a listener
-	ChainBytes     int        `json:"chain_bytes,omitempty"`
-	Observed       *c27Report `json:"observed,omitempty"`
+	Kind           string    `json:"kind"`
+	LeafPad        int       `json:"leaf_pad"`
+	ChainExtra     int       `json:"chain_extra"`
+	ChainExtraPad  int       `json:"chain_extra_pad"`
+	DefaultCert    bool      `json:"default_cert,omitempty"` // the repository's test certificate
+	BigClientHello bool      `json:"big_client_hello,omitempty"`
+	ALPNBytes      int       `json:"alpn_bytes,omitempty"`
+	Retry          bool      `json:"retry,omitempty"`
+	ResetKey       bool      `json:"reset_key,omitempty"`
+	SrvHandshakeS  int       `json:"srv_handshake_timeout_s"`
+	Steps          []c27Step `json:"steps"`
+	Tail           string    `json:"tail"`     // drop | deliver
+	TailPad        int       `json:"tail_pad"` // datagram padding added to every client datagram of the tail that has no short-header packet
+	S2C            string    `json:"s2c"`      // deliver | drop (the PRNG faults below apply to both directions)
+	Faults         vlpFaults `json:"faults"`
+	FaultPhaseMs   int       `json:"fault_phase_ms"`
+	Junk           []c27Junk `json:"junk,omitempty"`
+	RunS           int       `json:"run_s"`
+	NetSeed        uint64    `json:"net_seed"`
+	CertSeed       uint64    `json:"cert_seed"`
+	AltRouted      bool      `json:"alt_routed"`            // whether the spoofed source address has a listener
+	ChainBytes     int       `json:"chain_bytes,omitempty"` // filled in by the run: DER bytes of the generated chain
 }
 
 // ---- oracle ----
@@ -168,12 +167,6 @@ type c27Log struct {
 	Note  string `json:"note,omitempty"`
 }
 
-type c27Report struct {
-	Log        []c27Log          `json:"datagrams"`
-	Totals     map[string]string `json:"totals"`
-	Violations []string          `json:"violations,omitempty"`
-}
-
 type c27Oracle struct {
 	mu       sync.Mutex // all hooks run under vlpNet.mu already; mu guards reads from the driver goroutine
 	start    time.Time
@@ -191,8 +184,8 @@ type c27Oracle struct {
 	// antiAmplificationLimit of the server connections to an address; diagnostics only.
 	dbgLimits func(to netip.AddrPort) string
 
-	checked, credited                          int64
-	retries, vns, resets, closes, noroute, masked int64
+	checked, credited                     int64
+	retries, vns, resets, noroute, masked int64
 }
 
 func c27NewOracle(viol func(key, detail string)) *c27Oracle {
@@ -722,6 +715,7 @@ func c27Run(cfg *c27Config, viol func(key, detail string)) *c27Result {
 		}
 		srvTLS.Certificates = []tls.Certificate{cert}
 		res.chainBytes = total
+		cfg.ChainBytes = total
 	}
 	cliTLS := newTestTLSConfig(clientSide)
 	if cfg.BigClientHello {
